@@ -149,7 +149,14 @@ pub fn report_deaths(c: &mut Check, prefix: &str, deaths: &[crate::iso::Death]) 
             c.inconclusive(&format!("worker watchdog expired while processing {}", d.label));
             continue;
         }
-        let kind = format!("abort:{}", d.reason);
+        // an allocation failure whose request fits `guard limit (0x7FFFFF elements) x 1 KiB per element` is the recorded
+        // weakness of the allocation guard (it bounds the element COUNT, `Vec::with_capacity(count)` then reserves
+        // count x size_of::<T>() bytes); anything larger is a reservation the guard should have refused
+        let requested: Option<u64> = d.stderr_tail.split("memory allocation of ").nth(1).and_then(|r| r.split(' ').next()).and_then(|n| n.parse().ok());
+        let kind = match (d.reason.as_str(), requested) {
+            ("alloc", Some(n)) if n >= (64 << 20) && n <= 0x7F_FFFF * 1024 => "abort:alloc-of-guarded-element-count".to_string(),
+            _ => format!("abort:{}", d.reason),
+        };
         let sig = match known_sig(&c.known, &c.id.clone(), prefix, &d.label, &kind) {
             Some(s) => s,
             None => format!("{}:{}:{}", prefix, d.label, kind),
